@@ -461,4 +461,15 @@ example : (letI := fieldNum ℚ id
 /-- a symmetric adjacency structure with a repeated entry (`0–1` listed twice): one segment per edge -/
 example : Section.orient #[[1, 1, 2], [0, 0, 2], [0, 1]] = [(0, 1), (1, 2), (2, 0)] := by decide
 
+/-- hypotheses of `section_no_dead_end` on the tetrahedron cut by `z = 1/2`: the edge `e₁e₃` is shared by the faces `(0,1,3)` (its
+edge 1) and `(1,2,3)` (its edge 2); their second crossed edges `e₃0` and `e₂e₃` are different mesh edges -/
+example : (letI := fieldNum ℚ id
+    let V : Array (V3 ℚ) := #[⟨0, 0, 0⟩, ⟨1, 0, 0⟩, ⟨0, 1, 0⟩, ⟨0, 0, 1⟩]
+    CrossedEdge (⟨0, 0, 1⟩ : V3 ℚ) (1 / 2) 0 V (0, 1, 3) 1 ∧ CrossedEdge (⟨0, 0, 1⟩ : V3 ℚ) (1 / 2) 0 V (0, 1, 3) 2 ∧
+    CrossedEdge (⟨0, 0, 1⟩ : V3 ℚ) (1 / 2) 0 V (1, 2, 3) 2 ∧ CrossedEdge (⟨0, 0, 1⟩ : V3 ℚ) (1 / 2) 0 V (1, 2, 3) 1) ∧
+    edgeKey (0, 1, 3) 1 = edgeKey (1, 2, 3) 2 ∧ edgeKey (0, 1, 3) 2 ≠ edgeKey (1, 2, 3) 1 := by
+  refine ⟨?_, by decide, by decide⟩
+  simp only [CrossedEdge, OppCol, vcol]
+  decide +kernel
+
 end C17
